@@ -8,3 +8,8 @@ pid, prop = sys.argv[1], sys.argv[2]
 ov = overrides_for({pid})[pid]
 code, R = run_check(prop, 'quick', overrides=ov, quiet=False, write=False)
 print('exit', code)
+for o in R.violations:
+    print('VIOL', o.rule, o.construct, o.token, '|', getattr(o, 'detail', ''), '|', getattr(o, 'where', ''))
+    t = getattr(o, 'trace', None)
+    if t:
+        print('   trace:', t)
